@@ -180,7 +180,7 @@ class RealFile:
         """one reader object for one trajectory; a cut of -1 is a poll while the file does not exist yet"""
         if os.path.exists(self.path):
             os.remove(self.path)
-        return {"reader": ep.ReadAndProcessOnTheFly(self.path, fn), "fh": None, "prev": 0, "out": [],
+        return {"reader": ep.ReadAndProcessOnTheFly(self.path, fn), "fh": None, "prev": 0, "out": [], "prevs": [],
                 "data": data, "cuts": list(cuts), "conv": conv, "k": 0, "dead": False}
 
     def step(self, st):
@@ -206,6 +206,7 @@ class RealFile:
             st["dead"] = True
             return False
         st["out"].append((st["reader"].current_position, fr))
+        st["prevs"].append(getattr(st["reader"], "previous_position", None))
         return True
 
     def finish(self, st):
@@ -218,6 +219,7 @@ class RealFile:
         st = self.start(ep, fn, data, cuts, conv)
         while self.step(st):
             pass
+        self.last_prevs = st["prevs"]
         return self.finish(st)
 
 
@@ -375,7 +377,10 @@ def check_text(ctx, ep, rf, kind, text, frames, bounds, seqs, label):
     fn = ep.xyz_reader if kind == "xyz" else ep.lammpstrj_reader
     conv = conv_xyz if kind == "xyz" else conv_lmp
     pred = pred_xyz if kind == "xyz" else pred_lmp
-    code = [rf.polls(ep, fn, data, cuts, conv) for cuts in seqs]
+    code, prevs = [], []
+    for cuts in seqs:
+        code.append(rf.polls(ep, fn, data, cuts, conv))
+        prevs.append(rf.last_prevs)
     code_s = [[show_code_stage(s, kind) for s in st] for st in code]
     lens = [bounds[i + 1] - bounds[i] for i in range(len(frames))]
     have_model = ctx._driver_ok
@@ -428,6 +433,9 @@ def check_text(ctx, ep, rf, kind, text, frames, bounds, seqs, label):
                 ctx.disagree({"fn": f"{kind}: Lean spec stages vs Lean reader model", "label": label, "cuts": cuts},
                              tgt, want)
     if have_model:
+        from props import c13_ext
+        c13_ext.compare_object(ctx, kind, data, text, seqs, code, prevs, lens, frames, label,
+                               (show_code_stage, canon_model, fl_rows))
         if kind == "xyz":
             if agree_asis:
                 ctx.hit("xyz:code-agrees-with-model=asIs")
@@ -631,6 +639,8 @@ def trr_run(tmpdir, data: bytes, schedule, trace=None):
     try:
         try:
             for fr in runner.get_gromacs_frames():
+                if trace is not None:
+                    trace.append(("yield", list(fr.keys()) if isinstance(fr, dict) else []))
                 out.append(_trr_frame_out(state, fr))
                 if len(out) > 1000:
                     out.append("err:runaway:more than 1000 frames yielded")
@@ -691,7 +701,7 @@ def trr_ticks(trace):
             if ev[2]:
                 sizes.append(ev[1])
                 ticks.append(None)
-        else:
+        elif ev[0] == "read":
             _, off, req, got, visible, running = ev
             if got != req or off + req > visible:
                 bad.append(ev)
@@ -851,11 +861,14 @@ def check_trr(ctx, tmpdir):
             label = {"kind": "trr", "endian": endian, "double": double, "natoms": natoms, "blocks": blocks,
                      "nframes": nframes}
             model_lines, model_ticks = [], []
+            gmx_items = []
+            from props import c13_ext
             for sch in scheds:
                 ncase += 1
                 trace = []
                 out = trr_run(tmpdir, data, sch, trace)
                 sizes, ticks, badreads = trr_ticks(trace)
+                gmx_items.append((data, sch, c13_ext.gmx_events(trace, out, data), c13_ext.gmx_sizes(trace)))
                 seen = ctx.extra.setdefault("_c13_reported", [])
                 if badreads and "C13:trr:read-beyond-visible-bytes" not in seen:
                     seen.append("C13:trr:read-beyond-visible-bytes")
@@ -875,6 +888,27 @@ def check_trr(ctx, tmpdir):
                         ctx.fail(bad[0], bad[1], dict(label, data=data.hex(), schedule=sch))
                 if len(sch) > 1:
                     ctx.distinct(("trr", endian, double, natoms, tuple(blocks), tuple(sch)))
+            # files that stop inside a frame (the program ended there) and damaged files: no property predicate (the
+            # property speaks about well-formed output), only model = code for the whole generator incl. its
+            # swallowed-EOFError branches and the unguarded final phase
+            odd = []
+            for _ in range(4 if ctx.quick else 40):
+                c = rng.randrange(1, T)
+                odd.append((data[:c], sorted(rng.sample(range(1, c + 1), min(c, rng.randrange(1, 4)))) + [c]))
+            for _ in range(3 if ctx.quick else 30):
+                bad = bytearray(data)
+                k = rng.choice([0, 3, 4, 7, 8, 12, 23, 24 + 8 + 3, 24 + 28 + 3, 24 + 40 + 3] +
+                               [rng.randrange(0, len(parts[0][0]))])
+                off = rng.choice([0] + ends[:-1])
+                if off + k < T:
+                    bad[off + k] = rng.choice([0, 1, 255, bad[off + k] ^ 0x10])
+                odd.append((bytes(bad), sorted(rng.sample(range(1, T), min(T - 1, rng.randrange(0, 5)))) + [T]))
+            for fdata, sch in odd:
+                trace = []
+                out = trr_run(tmpdir, fdata, sch, trace)
+                ctx.count(1, branch="trr:generator-on-truncated-or-damaged-file")
+                gmx_items.append((fdata, sch, c13_ext.gmx_events(trace, out, fdata), c13_ext.gmx_sizes(trace)))
+            c13_ext.compare_gmx(ctx, label, gmx_items)
             if ctx._driver_ok:
                 ndis = 0
                 for (sch, ticks), ans in zip(model_ticks, ctx.driver(model_lines)):
@@ -957,7 +991,13 @@ def run(ctx):
                 "out is overwritten with NaN after it was copied. TRR: uniform and heterogeneous frames (any subset "
                 "of x/v/f, box-only, single-frame, zero-valued frames, a file of exactly 1000 bytes), all [c,T] cuts "
                 "(every byte on the small files) plus every boundary ±1 (frame ends, header/data, TRR_HEAD_SIZE, the "
-                "header guards), stutter and pair schedules, two runners alive at once. "
+                "header guards), stutter and pair schedules, two runners alive at once; the whole generator (guards, reads, "
+                "yields with raw block bytes, final phase) against gGen, also on files cut inside a frame and damaged "
+                "headers; header+payload bytes for all 64 block-presence combinations x precision x byte order, "
+                "complete and truncated at every block boundary, against trrData. Reader object: current_position and "
+                "previous_position after every poll against rpRun; arbitrary file-state sequences (grown, truncated, "
+                "replaced, removed). Object comparison on every 4th (quick) / 2nd (thorough) plain pair schedule and "
+                "generator comparison on every 3rd / 2nd plain [c,T] schedule; all other schedules always. "
                 "Non-trivial = at least one cut strictly inside a frame; distinct by (trajectory, cut sequence).")
     try:
         rf = RealFile(tmpdir)
@@ -1032,7 +1072,11 @@ def run(ctx):
                     ctx.disagree({"fn": "lammpstrj_reader malformed vs model", "text": t}, code, m)
 
         check_interleaved(ctx, ep, tmpdir, pool)
+        from props import c13_ext
+        c13_ext.check_states(ctx, ep, tmpdir, pool, (show_code_stage, canon_model, fl_rows,
+                                                     {"xyz": conv_xyz, "lmp": conv_lmp}))
         check_trr_header(ctx)
+        c13_ext.check_trr_data(ctx)
         ntrr = check_trr(ctx, tmpdir)
         ctx.extra["trr_schedules"] = ntrr
         ctx.extra["signatures_failing"] = ctx.extra.pop("_c13_reported", [])
@@ -1052,11 +1096,14 @@ def run(ctx):
         "blank the late-newline skip of lammpstrj_reader does not match and the next poll raises ValueError",
         "number tokens restricted to [+-]digits[.digits][e[+-]digits] (no inf/nan/underscores); float()/numpy "
         "string-to-double conversion assumed correctly rounded and identical",
-        "TRR: the Lean model covers the size guards (frame = header size + its own data size; theorem needs equal "
-        "header sizes ≤ TRR_HEAD_SIZE) and the header decoding at byte level (trr_header_bytes: bytes -> 13 ints, "
-        "byte order, precision, header/data size); the float payload is compared bit-for-bit by the tie only, on "
-        "struct-written frames (box + any subset of x, v, f per frame, both byte orders and precisions); "
-        "reopen_file/read_remaining_trr only as far as the schedules reach them",
+        "TRR: the Lean model is the whole get_gromacs_frames generator at byte level (gGen: size guards, read_trr_header, "
+        "get_data/read_trr_data block layout for all 64 presence combinations and both precisions, bytes_read next to the "
+        "file pointer, swallowed EOFErrors, read_remaining_trr); theorems for well-formed files: one precision per file "
+        "(equal header sizes <= TRR_HEAD_SIZE), header ints < 2^31, every announced block has the size of its reals; the "
+        "decoded reals are compared bit-for-bit by the tie only, on struct-written frames; on files that end inside a "
+        "frame or are damaged only model = code is checked (there read_remaining_trr raises struct.error: GROMACS has "
+        "exited normally, so the property does not speak about that state); reopen_file with a really replaced inode is "
+        "not generated",
         "xyz theorems for the as-is reader hold only for cuts at line ends (xyz_safety_partial); the unrestricted "
         "theorem is proved for the `repaired` variant of the model",
     ]
@@ -1065,7 +1112,9 @@ def run(ctx):
         "by a new reader, returned arrays poisoned after copying) are tie-only: the Lean model is a function of "
         "(content, position), it has no object identity to leak",
         "one reader object per trajectory, as the engines use it; re-using the SAME reader after the file was "
-        "truncated/replaced is not promised by the property and not generated",
+        "truncated/replaced/removed is not promised by the property: such file-state sequences are generated and "
+        "compared with the object model rpRun (frames, current_position, previous_position, error kinds); the only "
+        "predicate there is rp_poll_short_file (a file not reaching beyond current_position is inert)",
         "for a file that does not exist yet read_and_process_content returns a bare [] (also for the LAMMPS reader, "
         "whose normal result is a pair): taken as 'no frames'; the LAMMPS engine waits for the file before polling",
         "a reader that never returns from one call (infinite loop inside a poll) is only stopped by the framework's "
